@@ -256,7 +256,14 @@ func mapInternals(m *ordered.MapSA) (slots, tombstones int) {
 
 var c05Weird = []string{"", "1", "true", "null", "a b", "~", "0x1f", "k:v", "<<x", "ü"}
 
+type c05kept struct {
+	b    []byte
+	want string
+	when string
+}
+
 type c05store struct {
+	kept  []c05kept // bytes of earlier direct MarshalJSON calls, with what they were
 	name  string
 	m     *ordered.MapSA
 	model *mmodel
@@ -801,6 +808,28 @@ func checkStore(c *engine.Ctx, st *c05store, alpha []string, full bool, lastOp s
 			fail("C05.json", "(*Map)(nil).MarshalJSON error: %v", jerr)
 		}
 		jb = d
+	}
+	// results handed out earlier stay what they were: a caller may keep the bytes of a direct MarshalJSON call
+	for _, r := range st.kept {
+		if string(r.b) != r.want {
+			fail("C05.json", "the bytes returned by an earlier MarshalJSON call (%s) were %q and have since become %q", r.when, r.want, r.b)
+		}
+	}
+	if m != nil {
+		var d []byte
+		var derr error
+		c.Guard("C05.panic", "MarshalJSON (direct) after "+lastOp, func() { d, derr = m.MarshalJSON() })
+		if derr != nil {
+			fail("C05.json", "direct MarshalJSON error: %v", derr)
+		}
+		dp, err := decodeJSONPairs(d)
+		if err != nil || !pairsEqual(dp, model.pairs) {
+			fail("C05.json", "direct MarshalJSON gives %q (%v)", d, err)
+		}
+		if len(st.kept) >= 6 {
+			st.kept = st.kept[1:]
+		}
+		st.kept = append(st.kept, c05kept{b: d, want: string(d), when: "after " + lastOp})
 	}
 	jp, err := decodeJSONPairs(jb)
 	if err != nil {
